@@ -128,6 +128,14 @@ func c09RVOLESoft(env *SymEnv, l int, beta byte, fault rvoleSoftFault) {
 		if fault.Col < l {
 			where = "data column"
 		}
+		if fault.Kind == "eta" && beta == 0 {
+			// with every choice bit 0 Bob's input is 0 and η does not enter his check at all (his
+			// consistency check binds Alice through the rows with β_j = 1; all-zero choices have
+			// probability 2^-416): nothing is demanded
+			env.Reach("rvole-softspoken: η is not checked when all of Bob's choice bits are 0")
+			env.Reach("rvole-softspoken-fault-caught")
+			return
+		}
 		id := fmt.Sprintf("%s/altered %s is refused by Bob", pfx, fault.Kind)
 		if fault.Kind == "atilde" {
 			id = fmt.Sprintf("%s/altered ATilde entry (%s, row with β=%d) is refused by Bob", pfx, where, bj)
